@@ -193,11 +193,19 @@ def check_problem_text(name, text_):
     return out, False
 
 
+def from_input(ident, written):
+    """can the TFF identifier be traced to a name written in the task (itself, a here/there copy of it, a sort-mangled
+    or renamed form of it)?"""
+    cands = {ident, ident[1:], re.sub(r'_[gis]$', '', ident), re.sub(r'__s\d*$', '', ident), re.sub(r'_p\d*$', '', ident)}
+    return any(c in written for c in cands if c)
+
+
 def check_item(item):
     b = bridge_mod.get()
     shape = item['shape']
     name, kind, left, right, ug = shape[:5]
     outline = shape[5] if len(shape) > 5 else ''
+    written = input_names(left, right, ug or '', outline or '')
     out = []
     configs = [('universal', 'sequential', True, True), ('universal', 'independent', False, False)]
     seen = set()
@@ -255,6 +263,12 @@ def check_item(item):
                 continue
             by_sig = {}
             for sgn, msg in real:
+                # the recorded name-mangling findings are all about identifiers the *user* wrote; the same error class
+                # on an identifier that cannot be traced to the task's text is something else and gets its own signature
+                if sgn.startswith('two-types') or sgn in ('declared-twice', 'type-vs-symbol'):
+                    m = re.match(r'(\S+) declared', msg)
+                    if m and not from_input(m.group(1), written):
+                        sgn += ':identifier-not-from-input'
                 by_sig.setdefault(sgn, []).append(msg)
             for sgn, msgs in sorted(by_sig.items()):
                 r = dict(base)
